@@ -75,6 +75,27 @@ func Sleep(d time.Duration) {
 	time.Sleep(d)
 }
 
+// AfterFunc (instrument -clock, only in a tree whose every one-argument Reset call is made
+// on an expression assigned from time.AfterFunc: any other re-arming could not be followed): with the hook set the timer belongs
+// to the simulator, which runs f when simulated time has passed the deadline.
+var AfterFuncHook func(d time.Duration, f func()) *time.Timer
+
+func AfterFunc(d time.Duration, f func()) *time.Timer {
+	if h := AfterFuncHook; h != nil {
+		return h(d, f)
+	}
+	return time.AfterFunc(d, f)
+}
+
+var TimerResetHook func(t *time.Timer, d time.Duration) bool
+
+func TimerReset(t *time.Timer, d time.Duration) bool {
+	if h := TimerResetHook; h != nil {
+		return h(t, d)
+	}
+	return t.Reset(d)
+}
+
 // Released tells the simulator that a lock was released.
 func Released() {
 	if h := ReleasedHook; h != nil {
@@ -94,7 +115,31 @@ var (
 	optClock   bool // route time.Now/Since/Until/Sleep through simrt
 	optNoYield bool // no schedule points, no lock seams (clock seam only)
 	nClock     int
+	// a one-argument Reset call somewhere in the tree: a timer may be re-armed, which the
+	// simulator could not follow, so time.AfterFunc stays real
+	treeResetsTimers bool
+	resetReceivers   = map[string]bool{}
+	timerExprs       = map[string]bool{}
 )
+
+func exprText(e ast.Expr) string {
+	var b bytes.Buffer
+	format.Node(&b, token.NewFileSet(), e)
+	return b.String()
+}
+
+func isAfterFunc(e ast.Expr) bool {
+	c, ok := e.(*ast.CallExpr)
+	if !ok {
+		return false
+	}
+	sel, ok := c.Fun.(*ast.SelectorExpr)
+	if !ok || sel.Sel.Name != "AfterFunc" {
+		return false
+	}
+	id, ok := sel.X.(*ast.Ident)
+	return ok && (id.Name == "time" || id.Name == "simrt")
+}
 
 func main() {
 	args := os.Args[1:]
@@ -133,22 +178,56 @@ func main() {
 	if err := os.WriteFile(filepath.Join(root, "simrt", "simrt.go"), []byte(simrtSrc), 0o644); err != nil {
 		die(err)
 	}
-	err = filepath.Walk(root, func(path string, info os.FileInfo, err error) error {
-		if err != nil {
-			return err
-		}
-		if info.IsDir() {
-			if info.Name() == "simrt" || info.Name() == ".git" || info.Name() == "testdata" {
-				return filepath.SkipDir
+	walk := func(visit func(path, rel string) error) error {
+		return filepath.Walk(root, func(path string, info os.FileInfo, err error) error {
+			if err != nil {
+				return err
 			}
+			if info.IsDir() {
+				if info.Name() == "simrt" || info.Name() == ".git" || info.Name() == "testdata" {
+					return filepath.SkipDir
+				}
+				return nil
+			}
+			if !strings.HasSuffix(path, ".go") || strings.HasSuffix(path, "_test.go") {
+				return nil
+			}
+			rel, _ := filepath.Rel(root, path)
+			return visit(path, rel)
+		})
+	}
+	if optClock { // does any file re-arm something with a one-argument Reset? then timers stay real
+		walk(func(path, rel string) error {
+			f, err := parser.ParseFile(token.NewFileSet(), path, nil, 0)
+			if err != nil {
+				return nil
+			}
+			ast.Inspect(f, func(x ast.Node) bool {
+				switch n := x.(type) {
+				case *ast.CallExpr:
+					if sel, ok := n.Fun.(*ast.SelectorExpr); ok && sel.Sel.Name == "Reset" && len(n.Args) == 1 {
+						resetReceivers[exprText(sel.X)] = true
+					}
+				case *ast.AssignStmt: // X = time.AfterFunc(...): X is a timer of ours
+					for i, rhs := range n.Rhs {
+						if isAfterFunc(rhs) && i < len(n.Lhs) {
+							timerExprs[exprText(n.Lhs[i])] = true
+						}
+					}
+				}
+				return true
+			})
 			return nil
+		})
+		// a re-armed timer can be followed only if every one-argument Reset in the tree is
+		// made on an expression that was assigned from time.AfterFunc
+		for r := range resetReceivers {
+			if !timerExprs[r] {
+				treeResetsTimers = true
+			}
 		}
-		if !strings.HasSuffix(path, ".go") || strings.HasSuffix(path, "_test.go") {
-			return nil
-		}
-		rel, _ := filepath.Rel(root, path)
-		return instrumentFile(path, rel, filepath.Dir(rel) == ".")
-	})
+	}
+	err = walk(func(path, rel string) error { return instrumentFile(path, rel, filepath.Dir(rel) == ".") })
 	if err != nil {
 		die(err)
 	}
@@ -429,6 +508,22 @@ func rewriteClock(f *ast.File) {
 		return
 	}
 	n := 0
+	if !treeResetsTimers { // X.Reset(d) on a timer of ours  =>  simrt.TimerReset(X, d)
+		ast.Inspect(f, func(x ast.Node) bool {
+			c, ok := x.(*ast.CallExpr)
+			if !ok || len(c.Args) != 1 {
+				return true
+			}
+			sel, ok := c.Fun.(*ast.SelectorExpr)
+			if !ok || sel.Sel.Name != "Reset" || !timerExprs[exprText(sel.X)] {
+				return true
+			}
+			c.Args = []ast.Expr{sel.X, c.Args[0]}
+			c.Fun = &ast.SelectorExpr{X: ast.NewIdent("simrt"), Sel: ast.NewIdent("TimerReset")}
+			n++
+			return true
+		})
+	}
 	ast.Inspect(f, func(x ast.Node) bool {
 		sel, ok := x.(*ast.SelectorExpr)
 		if !ok {
@@ -442,6 +537,11 @@ func rewriteClock(f *ast.File) {
 		case "Now", "Since", "Until", "Sleep":
 			sel.X = ast.NewIdent("simrt")
 			n++
+		case "AfterFunc":
+			if !treeResetsTimers {
+				sel.X = ast.NewIdent("simrt")
+				n++
+			}
 		}
 		return true
 	})
